@@ -491,7 +491,7 @@ Qed.
 
 (* ---------------------------------------------------------------- Get / GetNew *)
 Lemma host_of_get_host hp : host_of hp = get_host hp.
-Proof. induction hp as [|c r IH]; cbn; [reflexivity|]. destruct (c =? 58); [reflexivity|now rewrite IH]. Qed.
+Proof. reflexivity. (* the two host functions are the same fixpoint *) Qed.
 
 Lemma can_tier1 prev hp : can_choose prev true hp = tier1 prev hp.
 Proof.
